@@ -60,7 +60,7 @@ def main(tier):
         if rc not in (0, 1) and not viols:
             run.violation('set/%s/sanitizer' % dom, 'sanitizer report during search over %s: %s' % (dom, err.strip().splitlines()[:4]),
                           {'engine': 'core_vh set bfs', 'domain': dom, 'stderr': err[-4000:]})
-    if states < 5 * 1000 and not run.violations:
+    if states < 5 * 1000 and not run.violations and not run.capped:
         raise common.HarnessError('vacuous: only %d states' % states)
     cov = {
         'states': states, 'transitions': transitions, 'traces_validated_against_impl': replays,
